@@ -300,6 +300,7 @@ class ContractRun:
                 if not cstates:
                     self.record(fn, 'post', case['name'], True, None, vacuous=True)
                     continue
+            self.last_args = list(args)
             for s0 in cstates:
                 interp.stack = [(fn.name, 'entry')]
                 rets = interp.run_function(fn, s0, list(args))
@@ -404,6 +405,18 @@ class ContractRun:
         elif isinstance(rv, CondVal):
             d = interp.decide(T, rv)
             e.bind('ret', Lin(1 if d else 0) if d is not None else None)
+        elif isinstance(rv, PtrVal):
+            # pointer results: ret_null (0/1), ret_off (byte offset inside its object), ret_arg (index of the
+            # pointer argument whose object it points into, -1 if none)
+            e.bind('ret_null', Lin(1 if rv.is_null else 0) if (rv.is_null or rv.nonnull) else None)
+            if not rv.is_null:
+                e.bind('ret_off', rv.off)
+                idx = -1
+                for n_, a_ in enumerate(getattr(self, 'last_args', [])):
+                    if isinstance(a_, PtrVal) and a_.obj == rv.obj:
+                        idx = n_
+                        break
+                e.bind('ret_arg', Lin(idx))
         for gk, gv in T.ghost.items():
             if isinstance(gv, Lin):
                 e.bind('ghost_' + gk, gv)
@@ -419,7 +432,8 @@ class ContractRun:
                         nxt.extend(assume_text(s, e, w))
                     Ts = nxt
             except KeyError as ex:
-                self.record(fn, 'post', pc['name'], False, 'premise not expressible: %s' % ex)
+                # the premise talks about a value this return does not define (e.g. ret_off of a NULL result)
+                self.record(fn, 'post', pc['name'], True, None, vacuous=True)
                 continue
             if not Ts:
                 self.record(fn, 'post', pc['name'], True, None, vacuous=True)
